@@ -59,13 +59,17 @@ pub fn base_cfg(path: PathBuf, opt: u8, target: &str) -> ErgConfig {
 
 pub fn run_one(item: &Value, workdir: &std::path::Path) -> Value {
     let id = item["id"].as_str().unwrap().to_string();
-    let src = item["src"].as_str().unwrap().to_string();
+    let src = item["src"].as_str().unwrap_or("").to_string();
     let mode = item["mode"].as_str().unwrap_or("compile").to_string();
     let opt = item["opt"].as_u64().unwrap_or(1) as u8;
     let target = item["target"].as_str().unwrap_or("3.11").to_string();
     let names: Vec<String> = item["types"].as_array().map(|a| a.iter().filter_map(|v| v.as_str().map(|s| s.to_string())).collect()).unwrap_or_default();
-    let path = workdir.join(format!("{id}.er"));
-    std::fs::write(&path, &src).unwrap();
+    // "path": compile an existing file where it is (corpus programs with sibling imports)
+    let in_place = item["path"].as_str().map(PathBuf::from);
+    let path = in_place.clone().unwrap_or_else(|| workdir.join(format!("{id}.er")));
+    if in_place.is_none() {
+        std::fs::write(&path, &src).unwrap();
+    }
     let mut cfg = base_cfg(path.clone(), opt, &target);
     let pyc_path = workdir.join(format!("{id}.pyc"));
     let mode2 = mode.clone();
@@ -113,7 +117,7 @@ pub fn run_one(item: &Value, workdir: &std::path::Path) -> Value {
         Err(p) => json!({"status": "panic", "panic": shard::panic_msg(&p), "loc": shard::last_panic_loc()}),
     };
     out["id"] = json!(id);
-    if item["keep_src"].as_bool() != Some(true) {
+    if item["keep_src"].as_bool() != Some(true) && in_place.is_none() {
         let _ = std::fs::remove_file(&path);
     }
     out
